@@ -57,6 +57,20 @@ let handle = function
      (match o with POk _ -> "V " ^ hex_of_z j | _ -> string_of_outcome o)
   | ["fix2cur"; z] -> hex_of_z (fix_to_cur (z_of_hex z))
   | ["ensure"; m; l; t; n] -> string_of_grow (gen_ensure_stack (z_of_hex m) (z_of_hex l) (z_of_hex t) (z_of_hex n))
+  | "wtrunc" :: wb :: lines ->
+     (* a C stack of sexp_write_one activations that goes through the call sites at these source lines (looked up in
+        the REGENERATED table): how many of the calls happen before an activation refuses to recurse *)
+     let rec nat_of_int n = if n <= 0 then O else S (nat_of_int (n - 1)) in
+     let rec int_of_nat = function O -> 0 | S n -> 1 + int_of_nat n in
+     let wbn = nat_of_int (int_of_string wb) in
+     let site_at l = match List.filter (fun (l', _) -> int_of_nat l' = l) write_sites with
+       | (_, s) :: _ -> s | [] -> Unknown in
+     let tbl = Hashtbl.create 16 in
+     let site l = match Hashtbl.find_opt tbl l with Some s -> s | None -> let s = site_at l in Hashtbl.add tbl l s; s in
+     let rec go f k = function
+       | [] -> k
+       | l :: tl -> (match step wbn f (site (int_of_string l)) with Some f' -> go f' (k + 1) tl | None -> k) in
+     string_of_int (go (Bounded O) 0 lines)
   | f -> "ERR unknown request " ^ String.concat " " f
 
 let () = serve handle
